@@ -43,7 +43,7 @@ def case_strategy(draw):
     # init=False attributes are left out here: an un-initialised attribute reads the class-level default, and an in-place
     # element helper tried on the twin would edit that shared default (outside every listed property: C08 restricts itself to
     # init-enabled attributes) and de-synchronise the two worlds.
-    wd = grammar.gen_world(src, dict(grammar.PROFILES["data"], flags=False))
+    wd = grammar.gen_world(src, dict(grammar.PROFILES["data_plain"], flags=False))
     names = [c["name"] for c in wd["classes"]]
     modes = ["self", "self", "child"]
     if "P" in names:
